@@ -687,6 +687,37 @@ func c06(r *mon.Run) {
 		Do: func(i int, t *mon.Tally) {
 			c06CaseExpr(r, t, rl, "numbers-at-the-edges-of-the-formats", i, hexprs[i/2], func() interface{} { return withSpare(hugeDoc()) }, i%2 == 1)
 		}}
-	r.Exec(fm, sd, rnd, wr, xd, emb, nlw, pw, hw)
+	// selections in which EVERY element passes (what a filter may then hand on is its input) followed by a pipe stage that pages,
+	// reorders or picks: the stage works on its own list
+	allDoc := func() interface{} {
+		return docs.J(`{"it":[1,2,3,4,5],"io":[{"on":true,"v":1},{"on":true,"v":2},{"on":1,"v":3},{"on":"y","v":4},{"on":[0],"v":5}],"is":["e","d","c","b","a"],"o":{"p":[3,2,1]}}`)
+	}
+	allExprs := []string{"it[?@] | [2:4]", "it[?@ > `0`] | [1:]", "io[?on] | [2:4]", "io[?on] | [1::2].v", "it[*] | [2:]", "it[:] | [1:3]", "it[] | [2:4]", "(it[?@])[2:4]", "it[?@] | [::2]", "it[?@] | reverse(@)", "it[?@] | sort(@)", "it[?`true`] | [3:]", "to_array(it) | [2:4]",
+		"not_null(it) | [1:3]", "it | [2:4]", "io[?on].v | [1:]", "is[?@] | sort(@)", "is[?@] | [1:] | sort(@)", "is[?@ != 'zz'] | [3:] | [0]", "it[?@] | [-2:]", "it[?@] | [::-1] | [1:3]", "io[?on] | [3:] | [0].v", "o.p[?@] | sort(@)", "o.p[?@] | [1:]", "it[?@] | map(&@, @) | [2:]",
+		"it[?@] | [?@ > `2`]", "it[?@] | [*] | [1:]", "it[?@][2:4]", "it[?@] | [4:2:-1]", "[it[?@] | [2:4], it]", "it[?@] | sort_by(@, &@) | [1:3]", "io[?v] | sort_by(@, &v) | [2:]", "it[?@] | [2:4] | sum(@)", "it[?@ < `9`] | [1:4:2]"}
+	allw := mon.Workload{Name: "selections-that-keep-everything-then-a-paging-stage", N: len(allExprs) * 2, Serial: true, Batch: 100,
+		Describe: func(i int) string { return allExprs[i/2] },
+		Do: func(i int, t *mon.Tally) {
+			c06CaseExpr(r, t, rl, "selections-that-keep-everything-then-a-paging-stage", i, allExprs[i/2], func() interface{} { return withSpare(allDoc()) }, i%2 == 1)
+		}}
+	// the RESULT of an earlier search as the document of the next one (a caller may keep it and query it): it is a document like any
+	// other - also when it is a one-element list a function built around its argument
+	resProviders := []string{"to_array(s)", "to_array(n)", "to_array(o)", "[s]", "not_null(z, an)", "an[*]", "to_array(to_array(s))", "merge(o)", "{k: s}", "values(o2)", "map(&@, as)", "as[?@]", "sort(as)", "reverse(as)", "[s, n]", "to_array(as)", "not_null(s)", "ao[*].s", "keys(o2)"}
+	resExprs := []string{"length(@)", "to_array(@)", "type(@)", "[0]", "join(',', @)", "sort(@)", "reverse(@)", "map(&@, @)", "not_null(@, @)", "contains(@, 'x')", "max(@)", "[length(@), type(@), to_string(@)]", "to_string(@)", "@[*].type(@)", "merge(@, @)", "keys(@)", "abs(@)", "[@, to_array(@)]", "sort_by(@, &@)", "sum(@)"}
+	resw := mon.Workload{Name: "results-of-earlier-searches-as-documents", N: len(resProviders) * len(resExprs), Serial: true, Batch: 100,
+		Describe: func(i int) string { return resExprs[i%len(resExprs)] + " on the result of " + resProviders[i/len(resExprs)] },
+		Do: func(i int, t *mon.Tally) {
+			prov := resProviders[i/len(resExprs)]
+			mk := func() interface{} {
+				first := apiSearch(prov, withSpare(base))
+				if first.Panicked || first.Err != nil {
+					return nil
+				}
+				apiSearch("type(@)", float64(1)) // (one unrelated call in between: whatever the first call borrowed has been given back)
+				return first.V
+			}
+			c06CaseExpr(r, t, rl, "results-of-earlier-searches-as-documents", i, resExprs[i%len(resExprs)], mk, i%2 == 1)
+		}}
+	r.Exec(fm, sd, rnd, wr, xd, emb, nlw, pw, hw, allw, resw)
 	r.Extra["race_log_active"] = rl != nil
 }
